@@ -4,12 +4,12 @@ FV.Model.PubSub (`step`: publish / work / unsubscribe / abandon) with the real m
 (`handle`: length check, header codec, op check, emitted Read).
 
   ps  <tr> <w> <delayUs> <ops>              runtime suite, quiescent scenarios: prints
-                                            delivered=<tags> cb=<n> err=<n> unsub=<none|ok>
+                                            unsub=<none|ok> delivered=<tags> cb=<n> err=<n>
   psr <tr> <w> <delayUs> <observed> <ops>   runtime suite, Unsubscribe racing messages in flight: `ok` iff the
                                             observed delivery list is admissible (everything delivered before the
                                             Unsubscribe, then a sub-list of what was queued; as sets for w > 1)
   g7  <defs> <struct> <otherStruct|-> <scope> <op> <otherOp|-> <tokens> <proto> <actions>
-                                            generated suite: prints acts=… calls=… (see harness/gen/runner/pubsub.go)
+                                            generated suite: prints n=<calls> acts=… calls=… (see harness/gen/runner/pubsub.go)
 -/
 import Driver.Util
 import Driver.Thrift
@@ -223,7 +223,7 @@ def stepPubSub (op : String) (args : List String) : Option String :=
     let wn ← w.toNat?
     -- one worker: the invocation order; n workers: the canonical (sorted) form of the multiset
     let tags := if wn ≤ 1 then s.w.log.map tagOf else sortNats (s.w.log.map tagOf)
-    pure s!"delivered={tagsStr tags} cb={s.w.cbs} err={s.w.errs} unsub={if u then "ok" else "none"}"
+    pure s!"unsub={if u then "ok" else "none"} delivered={tagsStr tags} cb={s.w.cbs} err={s.w.errs}"
   | "psr", [_, w, _, obsS, opsS] => do
     let ops ← parseRtOps opsS
     let obs ← parseTags obsS
@@ -244,7 +244,7 @@ def stepPubSub (op : String) (args : List String) : Option String :=
     let calls := fin.st.w.log.map fun dl =>
       dumpV d 64 (.struct sk) dl.payload ++ "@" ++ pairsOf (dl.hdrs.filter fun kv => kv.1 ≠ opIdHeader)
     let callsS := if calls.isEmpty then "-" else "/".intercalate calls
-    pure s!"acts={",".intercalate fin.acts} calls={callsS}"
+    pure s!"n={calls.length} acts={",".intercalate fin.acts} calls={callsS}"
   | _, _ => none
 
 end Driver
